@@ -14,6 +14,7 @@ type Case struct {
 	Shape      []int    `json:"shape"`      // journal statements per file (file 0 is the init file and not listed here)
 	Mode       string   `json:"mode"`       // --tx-mode: file | all | none
 	Directives []string `json:"directives"` // per file: "" | "none" | "file" (atlas:txmode directive)
+	Checkpoint int      `json:"checkpoint,omitempty"` // 1-based index of the journal file that is a checkpoint (0 = none): a fresh database starts there, earlier files never run
 	K          int      `json:"k"`          // crash at the K-th instrumented point reached (0 = probe run without crash)
 	Point      string   `json:"point"`      // name of that point (from the probe; informational)
 }
@@ -27,12 +28,27 @@ func (c Case) files() map[string]string {
 		if f < len(c.Directives) && c.Directives[f] != "" {
 			b.WriteString("-- atlas:txmode " + c.Directives[f] + "\n\n")
 		}
+		if c.Checkpoint == f+1 {
+			// a checkpoint holds the whole schema: it creates the journal itself
+			b.WriteString("-- atlas:checkpoint\n\nCREATE TABLE IF NOT EXISTS journal (id integer);\n")
+		}
 		for j := 0; j < n; j++ {
 			fmt.Fprintf(&b, "INSERT INTO journal (id) VALUES (%d);\n", id(f, j))
 		}
 		out[fmt.Sprintf("%d_f.sql", f+1)] = b.String()
 	}
 	return out
+}
+
+// skipped: files before the checkpoint never run on a fresh database.
+func (c Case) skipped(f int) bool { return c.Checkpoint > 0 && f < c.Checkpoint-1 }
+
+// extra is the number of statements of file f that precede its journal INSERTs.
+func (c Case) extra(f int) int {
+	if c.Checkpoint == f+1 {
+		return 1
+	}
+	return 0
 }
 
 // effective transaction mode of file f (0-based among the journal files).
@@ -165,10 +181,13 @@ func checkCase(c Case) (Outcome, error) {
 		if !ok {
 			continue
 		}
-		if rv[0] > n {
-			return out, fmt.Errorf("after crash at point %d (%s): revision %d claims %d of %d statements", c.K, crashPoint, f+1, rv[0], n)
+		if c.skipped(f) {
+			return out, fmt.Errorf("after crash at point %d (%s): file %d precedes the checkpoint but has a revision %v", c.K, crashPoint, f+1, rv)
 		}
-		for j := 0; j < rv[0]; j++ {
+		if rv[0] > n+c.extra(f) {
+			return out, fmt.Errorf("after crash at point %d (%s): revision %d claims %d of %d statements", c.K, crashPoint, f+1, rv[0], n+c.extra(f))
+		}
+		for j := 0; j < rv[0]-c.extra(f); j++ {
 			if mid.count[id(f, j)] == 0 {
 				return out, fmt.Errorf("after crash at point %d (%s): revision %d claims %d statements but journal id %d is absent (journal %v)", c.K, crashPoint, f+1, rv[0], id(f, j), mid.order)
 			}
@@ -184,14 +203,19 @@ func checkCase(c Case) (Outcome, error) {
 			}
 		}
 		present += got
+		if c.skipped(f) && got != 0 {
+			return out, fmt.Errorf("after crash at point %d (%s): file %d precedes the checkpoint but %d of its statements ran (journal %v)", c.K, crashPoint, f+1, got, mid.order)
+		}
 		if m := c.modeOf(f); (m == "file" || m == "all") && got != 0 && got != n {
 			return out, fmt.Errorf("after crash at point %d (%s) in tx-mode %s: file %d is half applied (%d of %d statements; journal %v)", c.K, crashPoint, m, f+1, got, n, mid.order)
 		}
 	}
 	if c.Mode == "all" && c.K > 0 {
 		total := 0
-		for _, n := range c.Shape {
-			total += n
+		for f, n := range c.Shape {
+			if !c.skipped(f) {
+				total += n
+			}
 		}
 		if present != 0 && present != total {
 			return out, fmt.Errorf("after crash at point %d (%s) in tx-mode all: %d of %d statements are visible (journal %v)", c.K, crashPoint, present, total, mid.order)
@@ -219,6 +243,9 @@ func checkCase(c Case) (Outcome, error) {
 		for j := 0; j < n; j++ {
 			x := id(f, j)
 			switch cnt := fin.count[x]; {
+			case c.skipped(f) && cnt == 0:
+			case c.skipped(f):
+				return out, fmt.Errorf("after crash at point %d (%s) and re-run: statement id %d of a file that precedes the checkpoint was executed (journal %v)", c.K, crashPoint, x, fin.order)
 			case cnt == 0:
 				return out, fmt.Errorf("after crash at point %d (%s) and re-run: statement id %d is lost (journal %v)", c.K, crashPoint, x, fin.order)
 			case cnt == 1:
@@ -234,8 +261,14 @@ func checkCase(c Case) (Outcome, error) {
 	}
 	for f, n := range c.Shape {
 		rv, ok := fin.revs[fmt.Sprint(f+1)]
-		if !ok || rv[0] != n || rv[1] != n || rv[2] != 0 {
-			return out, fmt.Errorf("after crash at point %d (%s) and re-run: revision %d is %v, want complete %d/%d without error", c.K, crashPoint, f+1, rv, n, n)
+		if c.skipped(f) {
+			if ok {
+				return out, fmt.Errorf("after crash at point %d (%s) and re-run: file %d precedes the checkpoint but has revision %v", c.K, crashPoint, f+1, rv)
+			}
+			continue
+		}
+		if w := n + c.extra(f); !ok || rv[0] != w || rv[1] != w || rv[2] != 0 {
+			return out, fmt.Errorf("after crash at point %d (%s) and re-run: revision %d is %v, want complete %d/%d without error", c.K, crashPoint, f+1, rv, w, w)
 		}
 	}
 	return out, nil
